@@ -230,6 +230,8 @@ def c07_cfgs(tier):
                   dict(n=1000000, variant=0, avg=2, trigger=1, **base),   # averaging active and the camera waiting for a software trigger (the source feeds the filter ring, not the sink ring)
                   dict(n=1000000, variant=1, prog='mH', **base),      # client holds a mapped region across its own abort
                   dict(n=1000000, variant=1, prog='mL', **base),      # ... and hands it back only after the follow-up acquisition has started
+                  dict(n=1000000, variant=1, prog='mw', exposure=4, ringf=3, ringx=8),   # the monitor lags: the writer has wrapped into the next lap behind it when the abort comes
+                  dict(n=1000000, variant=1, prog='pw', exposure=4, ringf=3, ringx=8),
                   dict(n=1000000, variant=1, prog='c', **base),       # live re-configuration (same devices) before the abort
                   dict(n=1000000, variant=1, prog='wc', trigger=1, **base),   # ... while the camera waits for a software trigger
                   dict(n=3, variant=0, ctl_stop=1, **base),           # stop from another thread on a finite acquisition
